@@ -182,6 +182,8 @@ impl Seen {
 pub trait Elem: 'static + Clone + Sized + Send + Sync {
     const NAME: &'static str;
     const TRACKED: bool;
+    /// element Clone is harness code that bumps the registry's clone counter
+    const COUNTS_CLONES: bool = Self::TRACKED;
     const SIZE: usize = std::mem::size_of::<Self>();
     const ALIGN: usize = std::mem::align_of::<Self>();
     const ZST: bool = std::mem::size_of::<Self>() == 0;
@@ -436,6 +438,70 @@ macro_rules! plain {
         }
     };
 }
+
+/// No drop glue, but a hand-written Clone that counts (a bitwise copy is *not* a clone).
+macro_rules! cloney {
+    ($name:ident, $size:expr, $align:expr) => {
+        #[repr(C, align($align))]
+        pub struct $name {
+            bytes: [u8; $size],
+        }
+        impl Elem for $name {
+            const NAME: &'static str = stringify!($name);
+            const TRACKED: bool = false;
+            const COUNTS_CLONES: bool = true;
+            const IDBYTES: usize = if $size < 4 { $size } else { 4 };
+            fn make(payload: u32) -> Self {
+                let p = Self::norm(payload);
+                let mut bytes = [0u8; $size];
+                let n = if $size < 4 { $size } else { 4 };
+                for i in 0..n {
+                    bytes[i] = (p >> (8 * i)) as u8;
+                }
+                for i in n..$size {
+                    bytes[i] = canary(p, i);
+                }
+                Self { bytes }
+            }
+            fn norm(p: u32) -> u32 {
+                if $size == 0 {
+                    0
+                } else {
+                    p
+                }
+            }
+            fn see(b: &[u8]) -> Seen {
+                if $size == 0 {
+                    return Seen { id: 0, payload: Some(0), slot: Slot::Live };
+                }
+                let mut p = 0u32;
+                for i in 0..4 {
+                    p |= (b[i] as u32) << (8 * i);
+                }
+                if b.iter().all(|&x| x == POISON) {
+                    return Seen { id: 0, payload: None, slot: Slot::Poison };
+                }
+                for i in 4..b.len() {
+                    if b[i] != canary(p, i) {
+                        return Seen { id: 0, payload: None, slot: Slot::Torn };
+                    }
+                }
+                Seen { id: 0, payload: Some(p), slot: Slot::Live }
+            }
+        }
+        impl Clone for $name {
+            fn clone(&self) -> Self {
+                let _s = crate::alloc::suspend();
+                user_code_tick("clone");
+                reg(|r| r.clone_calls += 1);
+                Self { bytes: self.bytes }
+            }
+        }
+    };
+}
+cloney!(Cc0, 0, 1);
+cloney!(Cc8, 8, 8);
+cloney!(Cc24, 24, 8);
 
 // size, align, idbytes
 tracked_zst!(Tr0, 1);
